@@ -249,7 +249,7 @@ func ruleMShallow(rule string) RuleFn {
 		for _, fn := range c.P.Funcs {
 			an.Instrs(fn, func(in ssa.Instruction) {
 				al, ok := in.(*ssa.Alloc)
-				if !ok || al.Comment != "complit" || !an.IsDigNamed(al.Type(), "errMissingDependencies") {
+				if !ok || !isConstruction(al) || !an.IsDigNamed(al.Type(), "errMissingDependencies") {
 					return
 				}
 				n++
